@@ -2,6 +2,7 @@
 import json
 import os
 import random
+from concurrent.futures import ThreadPoolExecutor
 import vf
 
 PID = "C05"
@@ -22,9 +23,34 @@ def _join(s, f):
     return ">".join(str(f(d)) for d in s["duties"])
 
 
+def _calls(s):
+    """The calls of the history in the order in which they start: P<h> Prepare, R<h> Propose, D<h> dropped;
+    a trailing * marks a call that other calls' steps are interleaved with (overlap)."""
+    sched = s.get("sched") or []
+    if not sched:
+        return " ".join("P%d R%d" % (i + 1, i + 1) for i in range(len(s["duties"])))
+    out, open_call = [], {}
+    for e in sched:
+        op, h = e["op"], e["h"]
+        if op in ("prepare", "propose"):
+            out.append([("P" if op == "prepare" else "R") + str(h), False])
+            open_call[h] = len(out) - 1
+        elif op == "drop":
+            out.append(["D%d" % h, False])
+        elif op in ("step", "release") and h in open_call:
+            # a step of a call that is not the one started last: the two overlap
+            last = max(open_call.values())
+            if open_call[h] != last:
+                out[open_call[h]][1] = True
+                out[last][1] = True
+    return " ".join(n + ("*" if o else "") for n, o in out)
+
+
 def sig_of(s):
-    # one value per duty of the history, joined with ">"
-    return {"duties": len(s["duties"]), "nodeclient_provider": s["cfg"]["nodeclient"],
+    # one value per duty object of the history, joined with ">"
+    return {"duties": len(s["duties"]), "nodeclient_provider": s["cfg"]["nodeclient"], "calls": _calls(s),
+            "slots": _join(s, lambda d: d["slot"] - s["duties"][0]["slot"]),
+            "validators": _join(s, lambda d: sorted({x["v"] for x in s["duties"]}).index(d["v"]) + 1),
             "version": _join(s, lambda d: d["proposal"]["version"]), "blinded": _join(s, lambda d: d["proposal"]["blinded"]),
             "dslot": _join(s, lambda d: d["proposal"]["dslot"]), "graffiti": _join(s, lambda d: d["graffiti"]),
             "nodeclient": _join(s, lambda d: d["nodeclient"]), "auction": _join(s, lambda d: d["auction"]["kind"]),
@@ -33,14 +59,12 @@ def sig_of(s):
 
 
 def _split(rows):
-    """The rows of a history, duty by duty."""
-    per, cur = [], []
+    """The rows of a history, duty object by duty object (h = 1, 2, ... in the order in which they are made)."""
+    n = max([r.get("h", 0) for r in rows] + [0])
+    per = [[] for _ in range(n)]
     for r in rows:
-        if r.get("ev") == "NextDuty":
-            per.append(cur)
-            cur = []
-        cur.append(r)
-    per.append(cur)
+        if r.get("ev") != "Switch" and r.get("h", 0) >= 1:
+            per[r["h"] - 1].append(r)
     return per
 
 
@@ -95,7 +119,36 @@ def _dstratum(d):
     return (p["out"], p["version"], p["blinded"], p["dslot"], d["sign"], d["accounts"], d["randao"], min(delivering, 2))
 
 
+def shape(s):
+    """What a history with a schedule exercises: a slot prepared again for ANOTHER validator and that later duty
+    object proposed (the re-org shape); the same duty prepared again; calls that overlap (which kinds)."""
+    d = s["duties"]
+    calls = _calls(s).split()
+    proposed = {int(c[1:].rstrip("*")) for c in calls if c[0] == "R"}
+    f = set()
+    for i in range(len(d)):
+        for j in range(i + 1, len(d)):
+            if d[i]["slot"] == d[j]["slot"]:
+                if d[i]["v"] != d[j]["v"]:
+                    f.add("reassigned")
+                    if (j + 1) in proposed and d[i]["randao"] == "ok":
+                        f.add("reassigned-proposed")
+                else:
+                    f.add("repeated")
+                    if (j + 1) in proposed:
+                        f.add("repeated-proposed")
+    ov = sorted({c[0] for c in calls if c.endswith("*")})
+    if ov:
+        f.add("overlap-" + "".join(ov))
+    if any("heldfull" in x["relays"] for x in d):
+        f.add("held")
+    return tuple(sorted(f))
+
+
 def _stratum(s):
+    if s.get("sched"):
+        # histories with a schedule: shape x what goes wrong in each duty object's calls
+        return (shape(s), tuple(_tags(d) for d in s["duties"]), tuple(d["proposal"]["blinded"] for d in s["duties"]))
     if len(s["duties"]) == 1:
         return _dstratum(s["duties"][0])
     # histories: what went wrong for each duty but the last x how the last duty obtains its graffiti and block
@@ -136,11 +189,18 @@ def _widen(rnd, s, sc):
     gap = rnd.choice([1, 1, 2, 32, rnd.randrange(3, 300)])
     first = s["duties"][0]["slot"]
     v0 = rnd.randrange(1, 1500000)
+    vmap = {}
     duties = []
     for d in s["duties"]:
         d = dict(d)
         d["slot"] = base + (d["slot"] - first) * gap
-        d["v"] = v0 if rnd.random() < 0.5 else rnd.randrange(1, 1500000)
+        if s.get("sched"):
+            # the model's validators stay distinct (and equal ones equal)
+            if d["v"] not in vmap:
+                vmap[d["v"]] = rnd.choice([x for x in (v0, v0 + 1, rnd.randrange(1, 1500000)) if x not in vmap.values()])
+            d["v"] = vmap[d["v"]]
+        else:
+            d["v"] = v0 if rnd.random() < 0.5 else rnd.randrange(1, 1500000)
         relays = list(d["relays"]) + ["none"] * (3 - len(d["relays"]))
         al = list(d["auction"]["all"]) + [False] * (3 - len(d["auction"]["all"]))
         pr = list(d["auction"]["providers"]) + [False] * (3 - len(d["auction"]["providers"]))
@@ -148,33 +208,73 @@ def _widen(rnd, s, sc):
         d["auction"] = {"kind": d["auction"]["kind"], "all": [al[perm[i]] for i in range(3)],
                         "providers": [pr[perm[i]] for i in range(3)]}
         duties.append(d)
-    return {"sc": sc, "salt": rnd.randrange(1, 1000000), "cfg": dict(s["cfg"]), "duties": duties}
+    res = {"sc": sc, "salt": rnd.randrange(1, 1000000), "cfg": dict(s["cfg"]), "duties": duties}
+    if s.get("sched"):
+        res["sched"] = s["sched"]
+    return res
 
 
-def scenarios(tier):
+def _legacy(scs):
+    """The families of one duty object at a time (MaxOpen = 1): the schedule is the default one."""
+    for s in scs:
+        s.pop("sched", None)
+    return scs
+
+
+def scenarios(tier, pool):
     rnd = random.Random(vf.seed() * 7919 + 5)
-    main = vf.tlc_scenarios(PID, "Scen_Proposer", "Scen_Proposer.cfg", exhaustive=True, name="scen", timeout=900)
-    r3 = vf.tlc_scenarios(PID, "Scen_Proposer", "Scen_Proposer_r3.cfg", exhaustive=True, name="scen-r3", timeout=900)
-    # histories: one service instance, two duties (thorough: also three)
-    h2 = vf.tlc_scenarios(PID, "Scen_Proposer", "Scen_Proposer_hist.cfg", exhaustive=True, name="scen-hist", timeout=900)
-    h3 = []
-    if tier == "thorough":
-        h3 = vf.tlc_scenarios(PID, "Scen_Proposer", "Scen_Proposer_hist3.cfg", exhaustive=True, name="scen-hist3",
-                              timeout=1800, heap="6g")
-    total = len(main) + len(r3) + len(h2) + len(h3)
-    if tier == "quick":
-        main = _sample(rnd, main, 2400)
-        r3 = _sample(rnd, r3, 1200)
-        h2 = _sample(rnd, h2, 800)
+    thorough = tier == "thorough"
+
+    def gen(cfg, name, **kw):
+        return pool.submit(vf.tlc_scenarios, PID, "Scen_Proposer", cfg, name=name, **kw)
+
+    f_main = gen("Scen_Proposer.cfg", "scen", exhaustive=True, timeout=900)
+    f_r3 = gen("Scen_Proposer_r3.cfg", "scen-r3", exhaustive=True, timeout=900)
+    # histories: one service instance, two duties one after the other (thorough: also three)
+    f_h2 = gen("Scen_Proposer_hist.cfg", "scen-hist", exhaustive=True, timeout=900)
+    f_h3 = gen("Scen_Proposer_hist3.cfg", "scen-hist3", exhaustive=True, timeout=1800, heap="6g") if thorough else None
+    # calls as the controller makes them: Prepare and Propose scheduled apart, duty objects side by side
+    #   reprep: two duty objects for ONE slot (same / other validator), every outcome of the first, every order (exhaustive)
+    #   inst:   three duty objects, slots s / s / s+1 ..., calls one at a time in any order (seeded random walks)
+    #   ovl:    the same with two calls running at a time, any interleaving of their interface calls, relays that
+    #           hold a Propose (seeded random walks)
+    f_rp = gen("Scen_Proposer_reprep.cfg", "scen-reprep", exhaustive=True, timeout=900, workers=4)
+    walks = 30000 if thorough else 4000
+    f_in = gen("Scen_Proposer_inst.cfg", "scen-inst", num=walks, depth=120)
+    f_ov = gen("Scen_Proposer_ovl.cfg", "scen-ovl", num=walks, depth=160)
+    #   ovlr:   the same, every duty object is proposed (no drops, Prepare healthy): Propose overlapping Propose
+    f_or = gen("Scen_Proposer_ovlr.cfg", "scen-ovlr", num=walks // 2, depth=160)
+    main, r3, h2 = _legacy(f_main.result()), _legacy(f_r3.result()), _legacy(f_h2.result())
+    h3 = _legacy(f_h3.result()) if f_h3 else []
+    rp, ins, ov, ovr = f_rp.result(), f_in.result(), f_ov.result(), f_or.result()
+    total = len(main) + len(r3) + len(h2) + len(h3) + len(rp) + len(ins) + len(ov) + len(ovr)
+    if not thorough:
+        main = _sample(rnd, main, 2000)
+        r3 = _sample(rnd, r3, 1000)
+        h2 = _sample(rnd, h2, 600)
+        rp = _sample(rnd, rp, 500)
+        ins = _sample(rnd, ins, 500)
+        ov = _sample(rnd, ov, 500)
+        ovr = _sample(rnd, ovr, 300)
     else:
         h3 = _sample(rnd, h3, 3000)
+        ins = _sample(rnd, ins, 6000)
+        ov = _sample(rnd, ov, 6000)
+        ovr = _sample(rnd, ovr, 3000)
     out = []
-    # histories first: a hung Propose costs the driver its watchdog time, the sooner it starts the better
-    for s in h2 + h3 + main + r3:
+    # histories first: a hung call costs the driver its watchdog time, the sooner it starts the better
+    ov = ov + ovr
+    for s in rp + ins + ov + h2 + h3 + main + r3:
         out.append(_widen(rnd, s, len(out) + 1))
-    vf.log("scenarios: %d of the %d terminal paths TLC enumerated (%d histories of 2 duties, %d of 3 duties on one "
-           "service instance)" % (len(out), total, len(h2), len(h3)))
-    return out
+    shapes = {}
+    for s in rp + ins + ov:
+        for f in shape(s):
+            shapes[f] = shapes.get(f, 0) + 1
+    vf.log("scenarios: %d of the %d paths TLC produced (%d histories of 2 duties, %d of 3 duties one after the other; "
+           "%d + %d + %d histories with Prepare / Propose scheduled apart: %s)" % (
+               len(out), total, len(h2), len(h3), len(rp), len(ins), len(ov),
+               ", ".join("%s %d" % kv for kv in sorted(shapes.items()))))
+    return out, shapes
 
 
 def observations():
@@ -195,6 +295,34 @@ def observations():
         vf.log("the driver's watchdog recorded %d Propose call(s) that did not return (Hung)" % obs["hung"])
 
 
+CONTROLS = [
+    # (cfg, expected): a design that carries state between calls / shares it between overlapping calls must be
+    # rejected by OnlyDutySigner where the state matters, and by nothing where it does not
+    ("Memo_Proposer.cfg", "OnlyDutySigner"),        # per-slot memo, a slot prepared again for another validator
+    ("Memo_Proposer_fresh.cfg", None),              # ... right on every fresh instance (one duty object)
+    ("Memo_Proposer_same.cfg", None),               # ... and for the same duty prepared again
+    ("Shared_Proposer.cfg", "OnlyDutySigner"),      # duty noted in the service, two Proposes overlapping
+    ("Shared_Proposer_seq.cfg", None),              # ... right when calls never overlap
+]
+
+
+def controls():
+    """Vacuity self-check of the history / overlap rules at the level of the model (spec/Memo_Proposer.tla)."""
+    t = 0.0
+    for cfg, expected in CONTROLS:
+        r = vf.tlc(PID, "control-" + cfg.replace(".cfg", ""), "Memo_Proposer", cfg, workers=2, timeout=600)
+        t += r["wall_s"]
+        if expected is None:
+            if r["timed_out"] or not r["ok"]:
+                raise vf.Broken("control %s: the design must pass here and does not (%s %s); see %s/tlc.out"
+                                % (cfg, r["kind"], r["violated"], r["dir"]))
+        elif r["timed_out"] or r["kind"] != "invariant" or r["violated"] != expected:
+            raise vf.Broken("control %s: the design is not rejected by %s (%s %s); see %s/tlc.out"
+                            % (cfg, expected, r["kind"], r["violated"], r["dir"]))
+    vf.log("TLC Memo_Proposer: the per-slot memo and the duty noted in the service are rejected by OnlyDutySigner exactly "
+           "where state is carried over / calls overlap, and pass on a fresh instance / one call at a time (%.1fs)" % t)
+
+
 def run(tier):
     v = vf.Verdict(PID, tier)
     v.assumptions = [
@@ -205,25 +333,40 @@ def run(tier):
         "the requested version (nil Data panics: property C16)",
         "all collaborators are scripted fakes at the service's interfaces; the driver ends the job context when no "
         "relay will reveal a block (production job contexts have no deadline: property C20)",
+        "a fake attributes an interface call to the Prepare / Propose whose context the code passed to it",
     ]
-    v.add_mc(vf.tlc_exhaustive(PID, "Proposer", "MC_Proposer.cfg"))
-    # every duty of every history terminates (liveness under weak fairness) - smaller constants
-    v.add_mc(vf.tlc_exhaustive(PID, "Proposer", "MC_Proposer_live.cfg"))
-    if tier == "thorough":
-        v.add_mc(vf.tlc_exhaustive(PID, "Proposer", "MC_Proposer_big.cfg", timeout=2400))
-        v.add_mc(vf.tlc_exhaustive(PID, "Proposer", "MC_Proposer_live_big.cfg", timeout=1800))
-    sc = scenarios(tier)
+    thorough = tier == "thorough"
+    with ThreadPoolExecutor(max_workers=10) as pool:
+        mcs = [pool.submit(vf.tlc_exhaustive, PID, "Proposer", "MC_Proposer.cfg", workers=4),
+               # every duty of every history terminates (liveness under weak fairness) - smaller constants
+               pool.submit(vf.tlc_exhaustive, PID, "Proposer", "MC_Proposer_live.cfg", workers=2),
+               # the instance: duty objects side by side (one slot, two validators), two calls at a time
+               pool.submit(vf.tlc_exhaustive, PID, "Proposer", "MC_Proposer_inst.cfg", workers=4)]
+        ctl = pool.submit(controls)
+        sc, shapes = scenarios(tier, pool)
+        if thorough:
+            mcs += [pool.submit(vf.tlc_exhaustive, PID, "Proposer", "MC_Proposer_big.cfg", workers=6, timeout=2400),
+                    pool.submit(vf.tlc_exhaustive, PID, "Proposer", "MC_Proposer_live_big.cfg", workers=2, timeout=1800),
+                    pool.submit(vf.tlc_exhaustive, PID, "Proposer", "MC_Proposer_inst_big.cfg", workers=4, timeout=2400),
+                    pool.submit(vf.tlc_exhaustive, PID, "Proposer", "MC_Proposer_inst3.cfg", workers=4, timeout=2400)]
+        for f in mcs:
+            v.add_mc(f.result())
+        ctl.result()
     vf.conformance(v, sc, driver, "Trace_Proposer", "Trace_Proposer.cfg", sig_of, nontrivial,
-                   chunk=2500 if tier == "thorough" else None)
+                   chunk=2500 if thorough else None)
     observations()
-    v.coverage["rule"] = ("terminal paths of Proposer.tla's design enumerated exhaustively by TLC: single duties (every version x "
-                          "full/blinded x proposal slot offset x outcome of each step x relay scripts) and histories of 2 (thorough: "
-                          "also 3) consecutive duties on ONE service instance (every failure class of the earlier duty incl. graffiti "
-                          "provider error, {{CLIENT}} template with failing NodeClient, auction, fetch, wrong slot, sign, unblind, "
-                          "submit x reduced later duty); all of them (thorough; 3-duty histories sampled) or a seeded stratified "
-                          "sample (quick) replayed on the real proposer service, each Propose under a watchdog; one evaluation = one "
-                          "history; non-trivial = in some duty something was signed, or a proposal for another slot was obtained, "
-                          "or graffiti/node client/auction failed; distinct by scenario")
+    v.coverage["history_shapes"] = shapes
+    v.coverage["rule"] = ("paths of Proposer.tla's design produced by TLC: single duties (every version x full/blinded x proposal "
+                          "slot offset x outcome of each step x relay scripts; exhaustive) and histories on ONE service instance: "
+                          "2 (thorough: also 3) duties one after the other (every failure class of the earlier duty x reduced "
+                          "later duty; exhaustive); Prepare and Propose scheduled apart as the controller does - two duty objects "
+                          "for one slot, same / other validator, every order of the calls (exhaustive), three duty objects with "
+                          "calls one at a time in any order, and with two calls at a time interleaved at the interface calls and "
+                          "relays holding a Propose (seeded random walks); all of them (thorough; large families sampled) or a "
+                          "seeded stratified sample (quick) replayed on the real proposer service, one instance per history, "
+                          "every wait under a watchdog; one evaluation = one history; non-trivial = for some duty object "
+                          "something was signed, or a proposal for another slot was obtained, or graffiti/node client/auction "
+                          "failed; distinct by scenario; history_shapes counts the scheduled histories by what they exercise")
     return v.finish()
 
 
